@@ -695,8 +695,21 @@ pub fn generate(rng: &mut Rng, o: Opts) -> Prog {
     let n = g.rng.range(2, 7) as usize;
     g.block(&mut main, 2, n, &[], false, 0);
     let l = g.label();
-    let tail = if subs_first { g.rng.usize(8) } else { 0 };
+    let tail = if subs_first { g.rng.usize(9) } else { 0 };
     match tail {
+        8 => {
+            // the last statement that makes code is END; behind it only lines without code, the last one a DATA
+            // line, and a jump from the main part lands on it (the program then runs off its end)
+            let l_data = g.label();
+            main.push(Line { label: l, sts: vec![St::If(g.cond(&[]), vec![St::Goto(l_data)], None)] });
+            let l2 = g.label();
+            main.push(Line { label: l2, sts: vec![g.print(), St::End] });
+            if g.rng.coin() {
+                let l3 = g.label();
+                main.push(Line { label: l3, sts: vec![St::Rem(String::new(), g.rng.coin())] });
+            }
+            main.push(Line { label: l_data, sts: vec![St::Data(vec![Datum::N(5), Datum::N(6)])] });
+        }
         6 if !main.is_empty() => {
             // the program ends in ON..GOTO: the first time round it jumps back to the start of the main
             // part, the second time the selector is out of range and the program runs off its end
